@@ -260,7 +260,7 @@ func TestVerifC12Twin(t *testing.T) {
 	nhist := vhEnvInt("VERIF_NHIST", 6)
 	nsteps := vhEnvInt("VERIF_NSTEPS", 120)
 	hosts := []string{"b1.c12.example", "b2.c12.example", "al.c12.example", "danger.c12.example", "sub.danger.c12.example", "adult.c12.example",
-		"svc.c12.example", "www.search.c12.example", "cust.c12.example", "rw.c12.example", "clean.c12.example", "danger2.c12.example"}
+		"svc.c12.example", "svc2.c12.example", "www.search.c12.example", "cust.c12.example", "rw.c12.example", "clean.c12.example", "danger2.c12.example"}
 	for beh := 0; beh < nhist; beh++ {
 		ver := map[string]int{}
 		content := &c12Content{texts: map[string]string{}}
@@ -287,7 +287,13 @@ func TestVerifC12Twin(t *testing.T) {
 			if v["svc"]%2 == 0 {
 				svc = append(svc, "||svc.c12.example^")
 			}
-			sj, _ := json.Marshal(map[string]any{"blocked_services": []map[string]any{{"id": "c12svc", "name": "svc", "rules": svc}}})
+			// a second service, chosen by other profiles, that lists the same host in the other versions
+			svc2 := []string{"||svc2.c12.example^"}
+			if v["svc"]%2 == 1 {
+				svc2 = append(svc2, "||svc.c12.example^")
+			}
+			sj, _ := json.Marshal(map[string]any{"blocked_services": []map[string]any{{"id": "c12svc", "name": "svc", "rules": svc},
+				{"id": "c12svc2", "name": "svc2", "rules": svc2}}})
 			content.set("/services.json", string(sj))
 			ss := "! safe search\n"
 			if v["ss"]%2 == 0 {
@@ -360,6 +366,14 @@ func TestVerifC12Twin(t *testing.T) {
 			mkProf("p2", &dnsmsg.BlockingModeREFUSED{}, 99, []filter.ID{"c12_l1", "c12_l2"}, true, false, true, false),
 			mkProf("p3", &dnsmsg.BlockingModeNXDOMAIN{}, 33, []filter.ID{"c12_l2"}, false, true, true, true),
 			mkProf("p4", &dnsmsg.BlockingModeCustomIP{IPv4: []netip.Addr{netip.MustParseAddr("10.9.8.7")}}, 5, []filter.ID{"c12_l2", "c12_l1"}, true, true, true, false),
+		}
+		// the profiles choose different sets of services: p1, p3 the first one, p2 the second one, p4 both
+		for i, ids := range map[int][]filter.BlockedServiceID{1: {"c12svc2"}, 3: {"c12svc2", "c12svc"}} {
+			pc := *profs[i].conf.Parental
+			pc.BlockedServices = ids
+			nc := *profs[i].conf
+			nc.Parental = &pc
+			profs[i].conf = &nc
 		}
 		setCustom := func(p *c12Profile) {
 			p.custom++
